@@ -170,3 +170,147 @@ def q_c02_remove_prefix(bodies):
 
 
 QUERIES_C02 = [q_c02_remove_prefix]
+
+
+# ------------------------------------------------------------------------------------------------
+# Replica::insert / Replica::delete_prefix: what the local write paths hand to insert_entry
+# ------------------------------------------------------------------------------------------------
+
+def q_local_writes(bodies):
+    """`Replica::insert` and `Replica::delete_prefix` (coroutines, run from bb0 with the await on insert_entry answered Ready).
+    On every path:
+      * a closed replica and a replica without the write secret end with an error and hand NOTHING to insert_entry;
+      * insert refuses an entry that would be a (malformed) deletion marker: length 0 or the EMPTY hash;
+      * otherwise EXACTLY ONE entry is handed to insert_entry, with origin Local, whatever the replica currently holds
+        (no look at the store, no shortcut): for insert the record `Record::new_current(hash, len)` at
+        RecordIdentifier(namespace of the replica, author.id(), key); for delete_prefix the deletion marker
+        `Entry::new_empty(RecordIdentifier(namespace, author.id(), prefix))` — ALWAYS, also when nothing matches the prefix
+        now (the marker is what rejects older entries that arrive later);  it is signed with the replica's own secret and
+        the author; what insert_entry answers is returned unchanged."""
+    name = "local_writes"
+    from queries_ins import _tracing_off
+    problems, nq, ncases, funcs = [], 0, 0, set()
+    for which in ("insert", "delete_prefix"):
+        hits = _find(bodies, r"^sync::<impl at [^>]*>::%s::\{closure#0\}$" % which, r"async fn body of sync::Replica<'_, I>::%s<" % which)
+        if len(hits) != 1:
+            problems.append(("Replica::%s found" % which, "inconclusive", "%d bodies" % len(hits)))
+            continue
+        body = hits[0]
+        up = {}
+        for var, expr in body.debug.items():
+            mm = re.match(r"^\(\(\*_\d+\)\.(\d+): ", expr)
+            if mm:
+                up[var] = mm.group(1)
+        need = ("self", "author", "key", "hash", "len") if which == "insert" else ("self", "prefix", "author")
+        if any(v not in up for v in need):
+            problems.append(("Replica::%s upvars" % which, "inconclusive", str(up)))
+            continue
+        smt = Smt()
+        for f, n in (("C_Ok", 1), ("C_Err", 1), ("C_Continue", 1), ("C_Break", 1), ("CE_Poll_Ready", 1), ("CE_Poll_Pending", 0), ("C_pin", 1), ("discr", 1), ("mk_id", 3), ("mk_entry", 2), ("rec_now", 2),
+                     ("entry_empty", 1), ("signed", 3), ("author_id", 1), ("C_insfut", 3), ("conv", 1), ("ns_of", 1)):
+            smt.fun(f, n)
+        for c in ("CORO", "CX", "SELF", "AUTHOR", "KEY", "HASH", "LEN", "UNIT", "SECRET", "RO", "CLOSED", "INSRES", "EMPTYHASH"):
+            smt.decls.append("(declare-const %s V)" % c)
+        for b in ("open", "has_secret", "len_zero", "hash_empty"):
+            smt.decls.append("(declare-const %s Bool)" % b)
+        models = _tracing_off()
+        models.update(std_models())
+
+        def m_insert_entry(ex, v, env):
+            env["__log"] = env.get("__log", ()) + (("insert_entry", v[0], v[1], v[2]),)
+            return "(C_insfut %s %s %s)" % (v[0], v[1], v[2])
+        m_insert_entry.wants_env = True
+
+        def m_poll(ex, v, env):
+            fut = _deep(ex, env, v[0])
+            if fut.startswith("(C_insfut "):
+                return "(CE_Poll_Ready INSRES)"
+            raise Inconclusive("poll of %s" % fut[:50])
+        m_poll.wants_env = True
+
+        def m_other_store(ex, v, env):
+            env["__log"] = env.get("__log", ()) + (("store", ex._cur),)
+            return "UNIT"
+        m_other_store.wants_env = True
+        models.update({
+            r"^<I as Deref>::deref$|^<I as DerefMut>::deref_mut$": lambda ex, v: v[0],
+            r"^sync::ReplicaInfo::ensure_open$": lambda ex, v: [("open", "(C_Ok UNIT)"), ("(not open)", "(C_Err CLOSED)")],
+            r"^sync::Replica::<'_, I>::id$": lambda ex, v: "(ns_of %s)" % v[0],
+            r"^keys::Author::id$": lambda ex, v: "(author_id %s)" % mk_deref(v[0]),
+            r"^RecordIdentifier::new::<": lambda ex, v: "(mk_id %s %s %s)" % (v[0], v[1], v[2]),
+            r"^sync::Record::new_current$": lambda ex, v: "(rec_now %s %s)" % (v[0], v[1]),
+            r"^sync::Entry::new$": lambda ex, v: "(mk_entry %s %s)" % (v[0], v[1]),
+            r"^sync::Entry::new_empty$": lambda ex, v: "(entry_empty %s)" % v[0],
+            r"^sync::Replica::<'_, I>::secret_key$": lambda ex, v: [("has_secret", "(C_Ok (ref SECRET))"), ("(not has_secret)", "(C_Err RO)")],
+            r"^sync::Entry::sign$": lambda ex, v: "(signed %s %s %s)" % (v[0], mk_deref(v[1]), mk_deref(v[2])),
+            r"^sync::Replica::<'_, I>::insert_entry$": m_insert_entry,
+            r" as Future>::poll$": m_poll,
+            r"^<iroh_blobs::Hash as PartialEq>::eq$": lambda ex, v: [("hash_empty", "(b2v true)"), ("(not hash_empty)", "(b2v false)")],
+            r" as FromResidual<.*>>::from_residual$": lambda ex, v: "(C_Err (conv %s))" % (split_sexpr_args(v[0])[0] if v[0].startswith("(C_Err ") else v[0]),
+            r"^store::fs::|StoreInstance|ranger::Store<": m_other_store,
+        })
+
+        class LExec(PMExec):
+            def call(self, callee, vals, env=None):
+                self._cur = callee
+                return super().call(callee, vals, env)
+
+            def rvalue(self, env, rv):
+                m = re.match(r"^Eq\((copy|move) (_\d+), const 0_u64\)$", rv.strip())
+                if m and env.get(m.group(2)) == "LEN":
+                    return "(b2v len_zero)"
+                return super().rvalue(env, rv)
+        ex = LExec(bodies, smt, models=models, enums={"Poll": ["Ready", "Pending"], "InsertOrigin": ["Local", "Sync"], "InsertError": [v for v in re.findall(r"^\s{4}(\w+)", re.search(r"pub enum InsertError \{(.*?)\n\}", _src("src/sync.rs"), re.S).group(1), re.M)]},
+                   max_paths=2000, max_depth=8000)
+        ex._cur = ""
+        ex.discr_of["(deref CORO)"] = 0
+        heap0 = {("CORO", up["self"]): "SELF", ("CORO", up["author"]): "(ref AUTHOR)"}
+        if which == "insert":
+            heap0.update({("CORO", up["key"]): "KEY", ("CORO", up["hash"]): "HASH", ("CORO", up["len"]): "LEN"})
+        else:
+            heap0.update({("CORO", up["prefix"]): "KEY"})
+        res = []
+        try:
+            ex._walk(body, "bb0", {"__heap": heap0, "_1": "(C_pin CORO)", "_2": "CX"}, [], [], res, 0)
+        except (Inconclusive, ValueError, AssertionError, KeyError, IndexError, RecursionError) as e:
+            problems.append(("Replica::%s can be followed" % which, "inconclusive", "%r" % (e,)))
+            continue
+        funcs |= ex.inlined
+        for pc, ret, calls, env in res:
+            nq += 1
+            v, _ = solve(smt.script("(and true %s)" % " ".join(pc)))
+            if v == "unsat":
+                continue
+            ncases += 1
+            flat = " ".join(pc)
+            log = env.get("__log", ())
+            ins = [l for l in log if l[0] == "insert_entry"]
+            tag = "%s path=%s" % (which, pc[:5])
+            if [l for l in log if l[0] == "store"]:
+                problems.append(("the local write paths do not look at the store themselves: what the replica holds is put's business (order independence)", "sat", tag + " %s" % [l[1] for l in log if l[0] == "store"][:2]))
+                continue
+            refuse = "(not open)" in flat or "(not has_secret)" in flat
+            if which == "insert":
+                neg = flat.replace("(not len_zero)", "").replace("(not hash_empty)", "")
+                refuse = refuse or "len_zero" in neg or "hash_empty" in neg
+            if refuse:
+                if ins or not ret.startswith("(CE_Poll_Ready (C_Err"):
+                    problems.append(("a closed or read-only replica (and, for insert, an entry that would be a deletion marker) produces an error and no entry", "sat", tag + " ret=%s" % ret[:60]))
+                continue
+            ident = "(mk_id (ns_of SELF) (author_id AUTHOR) KEY)"
+            ent = "(mk_entry %s (rec_now HASH LEN))" % ident if which == "insert" else "(entry_empty %s)" % ident
+            want = ("insert_entry", "SELF", "(signed %s SECRET AUTHOR)" % ent, "CE_InsertOrigin_Local")
+            if list(ins) != [want]:
+                problems.append(("exactly one entry is handed to insert_entry — %s, signed with the replica's secret and the author, origin Local — whatever the replica holds at that moment" % ("the new record at (namespace, author, key)" if which == "insert" else "the deletion marker at (namespace, author, prefix)"),
+                                 "sat", tag + " handed over=%s" % [(l[2][:90], l[3]) for l in ins]))
+                continue
+            if ret != "(CE_Poll_Ready INSRES)":
+                problems.append(("what insert_entry answers is returned unchanged", "sat", tag + " ret=%s" % ret[:60]))
+    problems.sort(key=lambda p: p[1] == "inconclusive")
+    return dict(name=name, property="C02", verdict=_verdict(problems), detail="feasible paths=%d; problems: %s" % (ncases, problems[:4] or "none"),
+                functions=sorted(funcs) + ["Replica::insert_entry (its own query insert_entry_glue), Entry::sign, Record::new_current (symbolic)"], queries=nq, cases=ncases, witness="d1,c02local",
+                check_message=(problems[0][0] if problems else "insert / delete_prefix hand exactly their entry to insert_entry"))
+
+
+QUERIES_C02 = [q_c02_remove_prefix]
+QUERIES_LOCAL = [q_local_writes]
